@@ -4,18 +4,6 @@ From V Require Import Common.Base C01.Utf C01.Quote C19.Json C19.JsonSpec.
 
 Definition bytes_ok (s : bytes) : Prop := Forall (fun b => 0 <= b <= 255) s.
 
-(* no invalid byte: DecodeWTF8Rune never reports (U+FFFD, width 1) *)
-Fixpoint wtf8_ok (fuel : nat) (s : bytes) : bool :=
-  match fuel with
-  | O => true
-  | S f =>
-    match s with
-    | [] => true
-    | _ => let '(c, w) := DecodeWTF8Rune s in
-           negb ((c =? 65533) && (w =? 1)) && wtf8_ok f (skipn (Z.to_nat w) s)
-    end
-  end.
-
 Ltac ifs_in H := repeat match type of H with context [if ?b then _ else _] => destruct b eqn:? end.
 Ltac ifs := repeat match goal with |- context [if ?b then _ else _] => destruct b eqn:? end.
 
@@ -136,19 +124,19 @@ Qed.
 (* one iteration of the quoting loop is read back by the spec parser *)
 Lemma step_ok ascii b0 t c w o n : 0 <= b0 <= 255 ->
   DecodeWTF8Rune (b0 :: t) = (c, w) ->
-  (ascii = true \/ ~ (c = 65533 /\ w = 1)) ->
   quote_step ascii (b0 :: t) = (o, n) ->
   n = Z.to_nat w /\ (1 <= n <= length (b0 :: t))%nat /\
   exists k, (1 <= k <= length o)%nat /\
     forall F tl, jstr (k + F) (o ++ tl) = prepend (rune_units c) (jstr F tl).
 Proof.
-  intros Hb Hd Hv Hq. pose proof (decode_shape _ _ _ _ Hb Hd) as D.
+  intros Hb Hd Hq. pose proof (decode_shape _ _ _ _ Hb Hd) as D.
   unfold quote_step in Hq. rewrite Hd in Hq.
   assert (W : 1 <= w <= Z.of_nat (length (b0 :: t)) /\ 0 <= c /\ c <= 1114111).
   { destruct D; subst; cbn [length]; lia. }
   assert (W1 : c < 128 -> w = 1 /\ c = b0) by (destruct D; subst; lia).
-  destruct (can_print c ascii) eqn:Ep.
-  - inversion Hq; subst o n. split; [reflexivity|]. split; [lia|].
+  destruct (can_print c ascii && negb (is_invalid_byte c w)) eqn:Epi.
+  - apply andb_true_iff in Epi as [Ep Hv]. unfold is_invalid_byte in Hv.
+    inversion Hq; subst o n. split; [reflexivity|]. split; [lia|].
     unfold can_print in Ep. destruct (c <=? 126) eqn:E1.
     + assert (W2 : c < 128) by lia. destruct (W1 W2) as [-> ->]. exists 1%nat. change (Z.to_nat 1) with 1%nat. cbn [firstn length]. split; [lia|].
       intros F tl. cbn [Nat.add].
@@ -156,7 +144,7 @@ Proof.
       apply (jstr_raw F b0 [] b0 tl); try lia.
       cbn [app utf8_dec]. destruct ((0 <=? b0) && (b0 <=? 127)) eqn:E; [reflexivity|lia].
     + assert (Hs : c < 55296 \/ 57343 < c) by lia.
-      assert (Hv' : ~ (c = 65533 /\ w = 1)) by (destruct Hv as [->|Hv]; [cbn in Ep; lia|exact Hv]).
+      assert (Hv' : ~ (c = 65533 /\ w = 1)) by lia.
       destruct (dshape_raw b0 t c w [] Hb D ltac:(lia) Hs Hv') as (o & Ho & _).
       exists 1%nat. rewrite Ho. split; [cbn [length]; lia|].
       intros F tl. destruct (dshape_raw b0 t c w tl Hb D ltac:(lia) Hs Hv') as (o' & Ho' & Hd').
@@ -196,11 +184,11 @@ Proof.
 Qed.
 
 Lemma quote_roundtrip_gen ascii : forall fuel s F rest,
-  bytes_ok s -> (ascii = true \/ wtf8_ok fuel s = true) -> (length s <= fuel)%nat ->
+  bytes_ok s -> (length s <= fuel)%nat ->
   (length (quote_body fuel ascii s) < F)%nat ->
   jstr F (quote_body fuel ascii s ++ 34 :: rest) = Some (str_units fuel s, rest).
 Proof.
-  induction fuel as [|f IH]; intros s F rest Hb Hv Hl HF.
+  induction fuel as [|f IH]; intros s F rest Hb Hl HF.
   - destruct s; [|cbn in Hl; lia]. cbn [quote_body str_units app]. destruct F; [cbn in HF; lia|]. reflexivity.
   - destruct s as [|b0 t].
     { cbn [quote_body str_units app]. destruct F; [cbn in HF; lia|]. reflexivity. }
@@ -208,35 +196,176 @@ Proof.
     destruct (DecodeWTF8Rune (b0 :: t)) as [c w] eqn:Hd.
     destruct (quote_step ascii (b0 :: t)) as [o n] eqn:Hq.
     assert (Hb0 : 0 <= b0 <= 255) by (inversion Hb; assumption).
-    assert (Hv1 : ascii = true \/ ~ (c = 65533 /\ w = 1)).
-    { destruct Hv as [Hv|Hv]; [left; exact Hv|right]. cbn [wtf8_ok] in Hv. rewrite Hd in Hv. lia. }
-    destruct (step_ok ascii b0 t c w o n Hb0 Hd Hv1 Hq) as (Hn & Hnl & k & Hk & Hstep).
+    destruct (step_ok ascii b0 t c w o n Hb0 Hd Hq) as (Hn & Hnl & k & Hk & Hstep).
     subst n. rewrite <- app_assoc.
     rewrite app_length in HF.
     replace F with (k + (F - k))%nat by lia. rewrite Hstep.
-    rewrite IH; [reflexivity| | | |].
+    rewrite IH; [reflexivity| | |].
     + apply bytes_ok_skipn. exact Hb.
-    + destruct Hv as [Hv|Hv]; [left; exact Hv|right]. cbn [wtf8_ok] in Hv. rewrite Hd in Hv.
-      apply andb_true_iff in Hv as [_ Hv]. exact Hv.
     + rewrite skipn_length. lia.
     + lia.
 Qed.
 
 Lemma json_quote_roundtrip_all ascii s rest :
-  bytes_ok s -> (ascii = true \/ wtf8_ok (length s) s = true) ->
+  bytes_ok s ->
   jstring (quote_for_json ascii s ++ rest) = Some (units s, rest).
 Proof.
-  intros Hb Hv. unfold quote_for_json, jstring, units. cbn [app].
+  intros Hb. unfold quote_for_json, jstring, units. cbn [app].
   change (34 =? 34) with true. cbv iota.
   rewrite <- app_assoc. cbn [app].
   apply quote_roundtrip_gen; try assumption; [lia|].
   rewrite app_length. cbn [length]. lia.
 Qed.
 
-(* without the charset=ascii escaping an invalid byte is copied as it is and
-   the text is not UTF-8 any more *)
-Lemma json_quote_utf8_refuted_wit :
-  exists s, bytes_ok s /\ jstring (quote_for_json false s) = None.
+
+(* ---- escapeFinalPath: a well-formed UTF-8 path written between quotation
+        marks after escaping is read back as exactly the path ---- *)
+
+Fixpoint utf8_valid (fuel : nat) (s : bytes) : bool :=
+  match s with
+  | [] => true
+  | _ =>
+    match fuel with
+    | O => false
+    | S f => match utf8_dec s with Some (_, r) => utf8_valid f r | None => false end
+    end
+  end.
+
+Ltac if_inner :=
+  match goal with
+  | |- context [if ?b then _ else _] =>
+    lazymatch b with
+    | context [if _ then _ else _] => fail
+    | _ => destruct b eqn:?
+    end
+  end.
+
+Lemma hexval_hexl d : 0 <= d < 16 -> hexval (hexl d) = Some d.
 Proof.
-  exists [97; 255]. split; [repeat constructor; lia|]. vm_compute. reflexivity.
+  intro H. unfold hexl. destruct (d <? 10) eqn:E; unfold hexval; ifs; try lia; f_equal; lia.
+Qed.
+
+Lemma jstr_esc_low F c tl : 0 <= c < 32 ->
+  jstr (S F) ([92; 117; 48; 48; hexl (c / 16); hexl (c mod 16)] ++ tl) = prepend [c] (jstr F tl).
+Proof.
+  intro H. cbn [app jstr].
+  change (92 =? 34) with false. change (92 =? 92) with true. change (117 =? 117) with true. cbv iota.
+  change (hexval 48) with (Some 0). rewrite !hexval_hexl by lia.
+  replace (((0 * 16 + 0) * 16 + c / 16) * 16 + c mod 16) with c by lia. reflexivity.
+Qed.
+
+(* what the RFC 3629 decoder accepted is what DecodeWTF8Rune reads *)
+Lemma utf8_dec_shape b0 t cp r : 0 <= b0 <= 255 ->
+  utf8_dec (b0 :: t) = Some (cp, r) ->
+  exists o, t = o ++ r /\
+    (forall tl, utf8_dec (b0 :: o ++ tl) = Some (cp, tl)) /\
+    DecodeWTF8Rune (b0 :: t) = (cp, Z.of_nat (S (length o))) /\
+    0 <= cp <= 1114111 /\
+    ((o = [] /\ cp = b0 /\ b0 < 128) \/ (128 <= b0 /\ Forall (fun x => 128 <= x) o /\ 128 <= cp)).
+Proof.
+  intros Hb H. cbn [utf8_dec] in H. unfold utail in H.
+  destruct ((0 <=? b0) && (b0 <=? 127)) eqn:E1.
+  { inversion H; subst. exists []. split; [reflexivity|]. split.
+    - intro tl. cbn [app utf8_dec]. rewrite E1. reflexivity.
+    - split; [|split; [lia|left; repeat split; lia]].
+      cbn [DecodeWTF8Rune length]. destruct (cp <? 128) eqn:E; [reflexivity|lia]. }
+  destruct ((194 <=? b0) && (b0 <=? 223)) eqn:E2.
+  { destruct t as [|b1 t1]; [discriminate|].
+    destruct ((128 <=? b1) && (b1 <=? 191)) eqn:C1; [|discriminate]. inversion H; subst.
+    exists [b1]. split; [reflexivity|]. split.
+    - intro tl. cbn [app utf8_dec]. unfold utail. rewrite E1, E2, C1. reflexivity.
+    - split; [|split; [lia|right; repeat split; try lia; repeat constructor; lia]].
+      unfold DecodeWTF8Rune, cont, RuneError. cbv zeta. cbn [length].
+      repeat (if_inner; try lia); try reflexivity. }
+  destruct ((224 <=? b0) && (b0 <=? 239)) eqn:E3.
+  { destruct t as [|b1 [|b2 t2]]; try discriminate.
+    cbv zeta in H.
+    destruct (b0 =? 224) eqn:Ea; destruct (b0 =? 237) eqn:Eb; try lia;
+    match type of H with (if ?c then _ else _) = _ => destruct c eqn:C1; [|discriminate] end;
+    inversion H; subst;
+    (exists [b1; b2]; split; [reflexivity|]; split;
+     [intro tl; cbn [app utf8_dec]; unfold utail; rewrite E1, E2, E3, ?Ea, ?Eb; cbv zeta; rewrite ?Ea, ?Eb, C1; reflexivity
+     |split; [|split; [lia|right; repeat split; try lia; repeat constructor; lia]];
+      unfold DecodeWTF8Rune, cont, RuneError; cbv zeta; cbn [length];
+      repeat (if_inner; try lia); try reflexivity]). }
+  destruct ((240 <=? b0) && (b0 <=? 244)) eqn:E4; [|discriminate].
+  destruct t as [|b1 [|b2 [|b3 t3]]]; try discriminate.
+  cbv zeta in H.
+  destruct (b0 =? 240) eqn:Ea; destruct (b0 =? 244) eqn:Eb; try lia;
+  match type of H with (if ?c then _ else _) = _ => destruct c eqn:C1; [|discriminate] end;
+  inversion H; subst;
+  (exists [b1; b2; b3]; split; [reflexivity|]; split;
+   [intro tl; cbn [app utf8_dec]; unfold utail; rewrite E1, E2, E3, E4; cbv zeta; rewrite ?Ea, ?Eb, C1; reflexivity
+   |split; [|split; [lia|right; repeat split; try lia; repeat constructor; lia]];
+    unfold DecodeWTF8Rune, cont, RuneError; cbv zeta; cbn [length];
+    repeat (if_inner; try lia); try reflexivity]).
+Qed.
+
+Lemma escape_high o : Forall (fun x => 128 <= x) o -> escape_final o = o.
+Proof.
+  induction 1 as [|x o Hx Ho IH]; [reflexivity|].
+  unfold escape_final in *. cbn [flat_map]. rewrite IH. unfold esc_final_byte.
+  destruct ((x =? 34) || (x =? 92)) eqn:E; [lia|]. destruct (32 <=? x) eqn:E2; [reflexivity|lia].
+Qed.
+
+Lemma escape_final_app a c : escape_final (a ++ c) = escape_final a ++ escape_final c.
+Proof. unfold escape_final. apply flat_map_app. Qed.
+
+Lemma escape_final_read : forall n s F rest,
+  bytes_ok s -> (length s <= n)%nat -> utf8_valid n s = true ->
+  (length (escape_final s) < F)%nat ->
+  jstr F (escape_final s ++ 34 :: rest) = Some (str_units n s, rest).
+Proof.
+  induction n as [|n IH]; intros s F rest Hb Hl Hv HF.
+  - destruct s; [|cbn in Hl; lia]. destruct F; [cbn in HF; lia|]. reflexivity.
+  - destruct s as [|b0 t]; [destruct F; [cbn in HF; lia|]; reflexivity|].
+    cbn [utf8_valid] in Hv.
+    destruct (utf8_dec (b0 :: t)) as [[cp r]|] eqn:Hd; [|discriminate].
+    assert (Hb0 : 0 <= b0 <= 255) by (inversion Hb; assumption).
+    destruct (utf8_dec_shape b0 t cp r Hb0 Hd) as (o & Ht & Hdec & Hw & Hcp & Hcase).
+    subst t.
+    assert (Hbr : bytes_ok r).
+    { unfold bytes_ok in *. inversion Hb as [|? ? _ Hb']. apply Forall_app in Hb'. tauto. }
+    assert (Hlr : (length r <= n)%nat) by (cbn [length] in Hl; rewrite app_length in Hl; lia).
+    cbn [str_units]. rewrite Hw.
+    replace (skipn (Z.to_nat (Z.of_nat (S (length o)))) (b0 :: o ++ r)) with r
+      by (rewrite Nat2Z.id; cbn [skipn]; rewrite skipn_app, skipn_all, Nat.sub_diag; reflexivity).
+    change (b0 :: o ++ r) with ([b0] ++ o ++ r) in HF |- *.
+    rewrite !escape_final_app in HF |- *. rewrite <- !app_assoc.
+    destruct Hcase as [(-> & -> & Hlt)|(Hge & Ho & Hcpge)].
+    + (* one ASCII byte *)
+      change (escape_final []) with (@nil Z) in *. cbn [app] in HF |- *.
+      unfold escape_final at 1. unfold escape_final at 1 in HF. cbn [flat_map] in HF |- *. rewrite app_nil_r in *.
+      assert (Hu : rune_units b0 = [b0]) by (unfold rune_units; destruct (b0 <=? 65535) eqn:E; [reflexivity|lia]).
+      rewrite Hu. rewrite app_length in HF.
+      unfold esc_final_byte in *.
+      destruct ((b0 =? 34) || (b0 =? 92)) eqn:Eq.
+      * cbn [length] in HF. destruct F; [lia|]. cbn [app].
+        rewrite (jstr_simple F b0 b0); [|lia|unfold simple_esc; destruct (b0 =? 34) eqn:E; [f_equal; lia|]; destruct (b0 =? 92) eqn:E'; [f_equal; lia|lia]].
+        rewrite IH; [reflexivity|assumption|assumption|assumption|lia].
+      * destruct (32 <=? b0) eqn:E32.
+        -- cbn [length] in HF. destruct F; [lia|].
+           rewrite (jstr_raw F b0 [] b0); try lia.
+           ++ rewrite IH; [unfold u16; destruct (b0 <? 65536) eqn:E; [reflexivity|lia]|assumption|assumption|assumption|lia].
+           ++ cbn [app]. apply (Hdec (escape_final r ++ 34 :: rest)).
+        -- cbn [length] in HF. destruct F; [lia|].
+           rewrite jstr_esc_low by lia.
+           rewrite IH; [reflexivity|assumption|assumption|assumption|lia].
+    + (* a multi-byte sequence: copied as it is *)
+      rewrite (escape_high o Ho) in *.
+      assert (E0 : escape_final [b0] = [b0]) by (apply escape_high; repeat constructor; lia).
+      rewrite E0 in *. rewrite !app_length in HF. cbn [length] in HF.
+      destruct F; [lia|]. cbn [app].
+      change (b0 :: o ++ escape_final r ++ 34 :: rest) with ((b0 :: o) ++ escape_final r ++ 34 :: rest).
+      rewrite (jstr_raw F b0 o cp); try lia; [|apply Hdec].
+      rewrite rune_units_u16 by lia.
+      rewrite IH; [reflexivity|assumption|assumption|assumption|lia].
+Qed.
+
+Lemma final_path_read p rest : bytes_ok p -> utf8_valid (length p) p = true ->
+  jstring (34 :: escape_final p ++ 34 :: rest) = Some (units p, rest).
+Proof.
+  intros Hb Hv. unfold jstring, units. change (34 =? 34) with true. cbv iota.
+  apply escape_final_read; try assumption; [lia|].
+  rewrite app_length. cbn [length]. lia.
 Qed.
